@@ -134,7 +134,10 @@ def ap_equals_pr_area(n, ngt, policy, sym_conf, aph, labels="full", nested=0):
         feed = [[], list(results[:k]), list(results[k:])]
     else:
         feed = results
+    feed_before = [list(f) for f in feed] if nested else None
     ap = AP.Ap(tp_metric, feed, ngt, [CAR], MatchingMode.CENTERDISTANCE, [thr])
+    # the same scene-level lists evaluated again (as MetricsScore does per threshold and for APH after AP)
+    ap_again = AP.Ap(TPMetricsAp(), feed, ngt, [CAR], MatchingMode.CENTERDISTANCE, [thr]) if nested else None
     ap_plain = ap if aph == "none" else AP.Ap(TPMetricsAp(), list(given), ngt, [CAR], MatchingMode.CENTERDISTANCE, [thr])
 
     order = _rank(rows)
@@ -160,6 +163,10 @@ def ap_equals_pr_area(n, ngt, policy, sym_conf, aph, labels="full", nested=0):
         parts["no_results_is_inf"] = ap.ap == float("inf")
         return Out(parts=parts, obs={"ap": "inf"})
     parts["ap_is_interpolated_pr_area"] = L.close(ap.ap, exp, 1e-9)
+    if nested:
+        parts["nested_input_untouched"] = len(feed) == len(feed_before) and all(
+            len(a) == len(b) and all(x is y for x, y in zip(a, b)) for a, b in zip(feed, feed_before))
+        parts["second_evaluation_of_the_same_lists"] = L.close(ap_again.ap, exp_plain, 1e-9)
     parts["non_negative"] = ap.ap >= -1e-12
     one_to_one = ntp <= ngt
     parts["at_most_one_when_one_to_one"] = L.Implies(one_to_one, ap.ap <= 1 + 1e-9)
